@@ -27,7 +27,7 @@ try:
         os.makedirs(os.path.dirname(os.path.join(wt, dst)), exist_ok=True)
         shutil.copy(sp, os.path.join(wt, dst)); placed.append(dst)
     cmd = meta.get("demo_cmd", "")
-    cmd = re.sub(r"cd /tmp/seed/\S+/wt\s*(&&|;)?", "", cmd)
+    cmd = re.sub(r"cd\s+(<[^>]*>|\S+)\s*(&&|;)", "", cmd)
     res["demo_cmd"] = cmd
     rc, out = sh(cmd, cwd=wt, timeout=1500)
     res["demo_without_change"] = {"rc": rc, "tail": out[-600:]}
